@@ -14,6 +14,9 @@ OFF = 16          # static offset of every wait / notify / atomic store in the h
 MAXPAGES = 6
 
 
+SEG_AT = 65000
+
+
 def harness_module(imported=False):
     """imported=True: the shared memory is imported from the embedder (the wasi-threads shape) instead of defined"""
     m = Module()
@@ -36,6 +39,13 @@ def harness_module(imported=False):
     add(b'size', (), (I32,), [('memory.size',)])
     add(b'load32', (I32,), (I32,), [('local.get', 0), ('i32.atomic.load', 2, OFF)])
     add(b'plainstore', (I32, I32), (), [('local.get', 0), ('local.get', 1), ('i32.store', 2, 0)])
+    # data segments (an active one, copied again by every child instance, and a passive one for memory.init) and the bulk operations:
+    # data accesses that run while other threads grow the memory.  They live at the end of page 0, away from the generated cells.
+    m.datas.append(('active', ('i32.const', SEG_AT), b'ACTIVE-8'))
+    m.datas.append(('passive', None, b'passive-segment!'))
+    add(b'init', (I32, I32, I32), (), [('local.get', 0), ('local.get', 1), ('local.get', 2), ('memory.init', 1)])
+    add(b'fill', (I32, I32, I32), (), [('local.get', 0), ('local.get', 1), ('local.get', 2), ('memory.fill',)])
+    add(b'copy', (I32, I32, I32), (), [('local.get', 0), ('local.get', 1), ('local.get', 2), ('memory.copy',)])
     wasm.validate(m)
     return m
 
@@ -43,10 +53,10 @@ def harness_module(imported=False):
 _bin = {}
 
 
-def harness_binary(asan=True, imported=False, ndebug=False):
+def harness_binary(asan=True, imported=False, ndebug=False, be=False):
     """ndebug=True: the generated C and the runtime are compiled with -DNDEBUG (release builds of embedders do that): nothing
     the property needs may live inside an assert()"""
-    key = ('h', asan, imported, ndebug)
+    key = ('h', asan, imported, ndebug, be)
     if key in _bin and os.path.exists(_bin[key]):
         return _bin[key]
     d = cexec.new_dir('vs')
@@ -54,7 +64,7 @@ def harness_binary(asan=True, imported=False, ndebug=False):
     if tr.rc != 0:
         raise cexec.InfraError('translating the schedule-harness module failed: %s' % tr.err[-300:])
     cc = ['clang', '-O1', '-g', '-w'] + (['-fsanitize=address,undefined', '-fno-sanitize-recover=all'] if asan else [])
-    cmd = cc + (['-DVF_IMPORTED_MEMORY=%d' % MAXPAGES] if imported else []) + (['-DNDEBUG'] if ndebug else []) + ['-DWASM_THREADS_PTHREADS', '-I', os.path.join(cexec.REPO, 'w2c2'), '-I', os.path.join(cexec.REPO, 'futex'),
+    cmd = cc + (['-DVF_IMPORTED_MEMORY=%d' % MAXPAGES] if imported else []) + (['-DNDEBUG'] if ndebug else []) + (['-DWASM_ENDIAN=1'] if be else []) + ['-DWASM_THREADS_PTHREADS', '-I', os.path.join(cexec.REPO, 'w2c2'), '-I', os.path.join(cexec.REPO, 'futex'),
                 '-I', os.path.join(cexec.VERIF, 'c'), '-I', d,
                 os.path.join(cexec.VERIF, 'c', 'sched_harness.c'), os.path.join(cexec.VERIF, 'c', 'vsched.c'), os.path.join(d, 'm.c')] + \
         [os.path.join(cexec.REPO, 'futex', f) for f in cexec.FUTEX_SRCS] + WRAP_FLAGS + ['-o', os.path.join(d, 'harness'), '-lpthread', '-lm']
@@ -71,7 +81,7 @@ Ev = collections.namedtuple('Ev', 'tid idx op a b c res s0 s1 acqs')
 def run_case(case, asan=True, timeout=60):
     """case: {'threads': {tid: [[op,a,b,c],...]}, 'addrs': [...], 'decisions': hex, 'spurious': n}
     returns (status, events, extra): status in ok | deadlock | stuck | crash | timeout"""
-    exe = harness_binary(asan, bool(case.get('imported')), bool(case.get('ndebug')))
+    exe = harness_binary(asan, bool(case.get('imported')), bool(case.get('ndebug')), bool(case.get('be')))
     lines = ['T %d' % len(case['threads']), 'D %s %d' % (case['decisions'] or '-', case.get('spurious', 3))]
     for tid in sorted(case['threads'], key=int):
         for op in case['threads'][tid]:
@@ -119,6 +129,9 @@ def run_case(case, asan=True, timeout=60):
 def check_futex(case, events):
     """linearizable model of wait/notify; linearization point = acquisition of the memory mutex. returns (sig, msg) or None, plus classes"""
     mem = bytearray(65536 * MAXPAGES)
+    # the big-endian code paths forced on this little-endian host (-DWASM_ENDIAN=1) keep every access consistent with itself but
+    # lay the bytes of a value out in reverse: accesses of different widths to the same cell see that layout (same rule as in C19)
+    bo = 'big' if case.get('be') else 'little'
     classes = set()
     timeline = []
     nprog = sum(len(v) for v in case['threads'].values())
@@ -150,15 +163,15 @@ def check_futex(case, events):
     for stamp, kind, e in timeline:
         if kind == 'store':
             if e.op == 3:
-                mem[e.a + OFF:e.a + OFF + 4] = (e.b & 0xffffffff).to_bytes(4, 'little')
+                mem[e.a + OFF:e.a + OFF + 4] = (e.b & 0xffffffff).to_bytes(4, bo)
             elif e.op == 4:
-                mem[e.a + OFF:e.a + OFF + 8] = (e.b & 0xffffffffffffffff).to_bytes(8, 'little')
+                mem[e.a + OFF:e.a + OFF + 8] = (e.b & 0xffffffffffffffff).to_bytes(8, bo)
             else:
-                mem[e.a:e.a + 4] = (e.b & 0xffffffff).to_bytes(4, 'little')
+                mem[e.a:e.a + 4] = (e.b & 0xffffffff).to_bytes(4, bo)
         elif kind == 'wait':
             ea = e.a + OFF
             nb = 4 if e.op == 0 else 8
-            cur = int.from_bytes(mem[ea:ea + nb], 'little')
+            cur = int.from_bytes(mem[ea:ea + nb], bo)
             exp = e.b & ((1 << (nb * 8)) - 1)
             if nb == 8 and cur != exp and (cur ^ exp) & 0xffffffff == 0:
                 classes.add('wait64_differs_in_high_half_only')
